@@ -50,5 +50,24 @@ def run(ck: Check):
                 lambda kk, data, f=f: "Y" if f(data) else "N", stream="family")
         ex.lines, ex.impl, ex.meta = ex2.lines, ex2.impl, ex2.meta
         ex.diff()
+    # duplicate atoms + random deterministic (content-hash) tests: de-duplicated candidates right after an
+    # accepted removal
+    import hashlib
+    for i in range(400 if quick else 4000):
+        k = r.randint(4, 8)
+        parts = [r.choice([b"a\n", b"a\n", b"b\n"]) for _ in range(k)]
+        tc = (b"", parts, [True] * k, b"")
+        orig = content(tc)
+        salt, pct = bytes([r.randrange(256)]), r.choice([30, 50, 70])
+
+        def f(c, orig=orig, salt=salt, pct=pct):
+            return c == orig or hashlib.sha256(salt + c).digest()[0] % 100 < pct
+        st = r.choice(["minimize-around", "minimize-around", "minimize-balanced"])
+        ex3 = Explorer(ck, oracles=[make_oracle_c13(lambda ctx, run, f=f: f)])
+        ex3.one(st, r.choice([{}, {"repeat": "always"}]), tc, orig, lambda kk, data, f=f: "Y" if f(data) else "N",
+                stream="dup-hash", model=(i % 10 == 0))
+        if ex3.lines:
+            ex.lines, ex.impl, ex.meta = ex3.lines, ex3.impl, ex3.meta
+            ex.diff()
     return ck.finish(level="proof", rule=RULE, assumptions=[
         "reading of 'partner' fixed in DESIGN.md 4/C13: the running balance must not dip below zero"])
